@@ -147,6 +147,7 @@ type ConnBackendPlan struct {
 	ParkRcpt       Dur
 	ParkLogout     Dur  // only applied when Logout is not called under Conn.locker
 	LogoutErr      bool // Logout returns an error (the interface allows it; nothing may depend on it)
+	PanicReset     int  // the n-th Reset on this connection panics (1-based; 0 never)
 	Auth           *AuthPlan
 }
 
@@ -375,6 +376,12 @@ type simSession struct {
 
 func (s *simSession) Reset() {
 	ev := s.b.begin(s.conn, s.id, "Reset", "")
+	if s.cp.PanicReset > 0 && ev.KindIdx+1 == s.cp.PanicReset {
+		ev.Panicked = true
+		ev.End = time.Now().UnixNano()
+		ev.Done = true
+		panic("simulated backend panic: in Reset")
+	}
 	ev.finish(nil)
 }
 
